@@ -226,6 +226,8 @@ class SimRaw(io.RawIOBase):
         self.append = append
         self.pos = len(disk.files.get(path, b"")) if append else 0
         self.fault = disk.fault      # the fault armed for the step that opened this handle
+        # a transient fault ("once"): a handle opened AFTER it fired (a retry, a rollback) meets a healthy device
+        self.fault_seen_fired_at_open = bool(self.fault and self.fault.get("fired"))
         self.nshort = 0
         disk.open_handles += 1
 
@@ -293,7 +295,7 @@ class SimRaw(io.RawIOBase):
         b = bytes(b)
         f = self.fault
         n = len(b)
-        if f and f.get("kind") in ("enospc", "write-eio"):
+        if f and f.get("kind") in ("enospc", "write-eio") and not (f.get("once") and f.get("fired") and self.fault_seen_fired_at_open):
             room = f["at"] - self.pos
             if room <= 0:
                 f["fired"] = True
